@@ -124,6 +124,9 @@ class Checker:
                     its, mname = k
                     for recv in prog.implementors(its):
                         impl_fn = prog.method_fn(recv, mname)
+                        if impl_fn and impl_fn in prog.funcs and prog.funcs[impl_fn].synthetic:
+                            # promoted method: the wrapper only forwards to the embedded type's method
+                            impl_fn = prog.wrapper_target(impl_fn)
                         if impl_fn and impl_fn in prog.funcs and not prog.funcs[impl_fn].synthetic:
                             key = 'iface|%s|%s|%s' % (impl_fn, its, mname)
                             if key not in vcs:
@@ -231,6 +234,8 @@ class Checker:
                 continue
             kept.append((vc, o, r))
         failed = kept
+        self.notes = notes
+        results = [x for x in results if x[1].name not in set(notes)]
         for n in notes:
             print('NOTE: %s (field not mentioned by any contract; not a violation of %s)' % (n, pid))
         for vc, o, r in failed:
@@ -389,6 +394,7 @@ class Checker:
                 'known_finding_obligations': [o.name for o, _ in kf_hits],
                 'failed_obligations': [o.name for _, o, _ in violations],
                 'undecided_vacuity_covers': self.undecided_covers,
+                'notes_not_counted': getattr(self, 'notes', []),
                 'deferred_to_thorough_tier': self.deferred,
                 'bounded': self.bounded,
                 'integer_mode': 'mathematical Int with exact wrap-around (wrap64/wrap32) on + - *; lengths <= 2^40 assumed',
